@@ -5,6 +5,8 @@ import P2.Drv.C12
 import P2.Drv.C15
 import P2.Drv.C05
 import P2.Drv.C04
+import P2.Drv.C16
+import P2.Drv.C07
 /- p2driver: one request per line (`<prop> <op> <nat args…>`), one answer per line. -/
 open P2.Drv
 
@@ -21,6 +23,8 @@ def dispatch (line : String) : String :=
         else if prop = "c15" then C15.handle op ns
         else if prop = "c05" then C05.handle op ns
         else if prop = "c04" then C04.handle op ns
+        else if prop = "c16" then C16.handle op ns
+        else if prop = "c07" then C07.handle op ns
         else none
       r.getD "BAD-OP"
   | _ => "BAD-LINE"
